@@ -246,7 +246,7 @@ def band_case(ctx, rng, idx):
     # the origin of the time axis is arbitrary (seconds late in a long
     # experiment, epoch time stamps): neighbouring times stay distinct
     times = times + float(rng.choice([0, 0, 0, 2e5, 1.7e9]))
-    n_s = int(rng.choice([2, 3, 5, 10, 40, 200, 500]))
+    n_s = int(rng.choice([2, 3, 5, 10, 40, 200, 500, 1000, 2000]))
     ties = bool(rng.integers(2))
     rows = []
     samples = {}
@@ -285,8 +285,19 @@ def band_case(ctx, rng, idx):
     if rng.random() < 0.5:
         df = df.iloc[rng.permutation(len(df))]
     n_p = int(rng.integers(1, 8))
-    probs = sorted(set(np.round(rng.uniform(0.05, 0.98, size=n_p), 2)))
-    probs = [float(p) for p in rng.permutation(probs)]
+    # (probabilities with two to four decimals, also close to 1 and close
+    # to each other: 0.95 next to 0.954 are two requests)
+    digits = int(rng.integers(2, 5))
+    probs = set(np.round(rng.uniform(0.05, 0.9995 if digits > 2 else 0.98,
+                                     size=n_p), digits))
+    if digits > 2 and rng.random() < 0.5:
+        p0 = float(np.round(rng.uniform(0.5, 0.99), 2))
+        probs |= {p0, float(np.round(p0 + 0.004, 3))}
+    if digits > 2 and rng.random() < 0.3:
+        probs.add([0.995, 0.999, 0.9975][int(rng.integers(3))])
+    # (at most 7 probabilities per figure are documented)
+    probs = sorted(probs)
+    probs = [float(p) for p in rng.permutation(probs)][:7]
     feats = {'figure': pname, 'n_samples': n_s, 'ties': ties,
              'bulk_probs': probs, 'n_times': n_times}
     ctx.case((pname, n_s, ties, len(probs), n_times),
@@ -315,6 +326,15 @@ def band_case(ctx, rng, idx):
         ctx.violation('one_band_per_probability', 'band_count:' + pname,
                       {'bands': len(bands), 'probabilities': len(probs)},
                       feats)
+        return
+    labelled = sorted(float(str(t.text).split()[0]) for t in bands)
+    if labelled != sorted(probs):
+        # (every band is drawn for - and labelled with - one of the
+        # requested probabilities)
+        ctx.violation('one_band_per_probability',
+                      'band_probabilities:' + pname,
+                      {'bands drawn for': labelled,
+                       'requested': sorted(probs)}, feats)
         return
     limits = {}
     for t in bands:
